@@ -224,6 +224,26 @@ def run_cell(impl, via, cell, out):
             elif via == 'websocket':
                 if w.transport(hsid) != 'websocket':
                     V('ws_open_not_websocket', 'open', 'transport() is %r after a WebSocket open' % w.transport(hsid))
+            if via == 'polling' and not cell['jsonp']:
+                # serving an open must not change what the next open is told (configuration is not consumed)
+                for attempt in (2, 3):
+                    r2 = w.http('GET', peer.BASEQ)
+                    w.run()
+                    d2 = peer.open_data(r2)
+                    if r2.exc or d2 is None:
+                        V('repeat_open_failed', 'open#%d' % attempt, 'open #%d: exc=%r status=%r' % (attempt, r2.exc, r2.status))
+                        break
+                    sid2 = d2.get('sid')
+                    same = {k: d2.get(k) for k in ('pingInterval', 'pingTimeout', 'maxPayload', 'upgrades')}
+                    want = {'pingInterval': want_pi, 'pingTimeout': want_pt, 'maxPayload': cell['buf'], 'upgrades': want_up}
+                    if same != want:
+                        V('repeat_open_differs', 'open#%d' % attempt, 'open #%d announced %r, want %r' % (attempt, same, want))
+                    ck2 = [v for k, v in (r2.resp_headers or []) if k.lower() == 'set-cookie']
+                    ref2 = cookie_ref(cell['cookie'], sid2)
+                    if (ref2 is None and ck2) or (ref2 is not None and (len(ck2) != 1 or ck2[0] not in ref2)):
+                        V('cookie_wrong', 'cookie=%s open#%d' % (cell['cookie'], attempt), 'open #%d: Set-Cookie %r, want one of %r' % (attempt, ck2, ref2))
+                    if sid2 == hsid:
+                        V('sid_reused', 'open#%d' % attempt, 'open #%d reused sid %r' % (attempt, sid2))
             return 'accepted'
         # rejection
         if status != 401:
